@@ -206,6 +206,7 @@ func init() {
 			// the k-mer scanner trusts the alphabet's index table to be negative for every non-letter byte
 			c.guard("tablefill", func() { ruleTableFill(c, "tablefill", "newAlphabet"); c.floor("tablefill", 1) })
 			c.guard("maskguard", func() { ruleMaskGuard(c, "maskguard"); c.floor("maskguard", 2) })
+			c.guard("indexspace", func() { ruleIndexSpace(c, "indexspace"); c.floor("indexspace", 2) })
 			c.guard("watermark", func() { ruleWatermark(c, "watermark", c.fn("index/kmerindex", "(*Index).ForEachKmerOf")); c.floor("watermark", 2) })
 		},
 	})
@@ -216,6 +217,7 @@ func init() {
 		Assumptions: []string{"the API protocol: Push* Finalise Pull* Clear per cycle"},
 		Run: func(c *Ctx) {
 			c.guard("reset", func() { ruleReset(c, "reset"); c.floor("reset", 6) })
+			c.guard("pooldrain", func() { rulePoolDrain(c, "pooldrain"); c.floor("pooldrain", 1) })
 			// whether a cycle is in-memory or spilled must not be decided from state the
 			// background writers are still producing: Finalise joins before reading it
 			c.guard("gojoin", func() { ruleMorassJoin(c, "gojoin"); c.floor("gojoin", 1) })
@@ -251,6 +253,7 @@ func init() {
 			c.guard("closeonce", func() { ruleCloseOnce(c, "closeonce", "concurrent"); c.floor("closeonce", 5) })
 			c.guard("lockset", func() { rulePromiseLockset(c, "lockset"); c.floor("lockset", 4) })
 			c.guard("sendafterdone", func() { ruleNoSendAfterDone(c, "sendafterdone"); c.floor("sendafterdone", 1) })
+			c.guard("closebysender", func() { ruleCloseBySender(c, "closebysender", "concurrent"); c.floor("closebysender", 1) })
 			c.guard("broadcast", func() { ruleBroadcast(c, "broadcast"); c.floor("broadcast", 1) })
 		},
 	})
